@@ -52,6 +52,7 @@ import copy
 import numbers
 import warnings
 import networkx as nx
+import numpy as np
 
 import strawberryfields.circuitdrawer as sfcd
 from strawberryfields.compilers import Compiler, compiler_db
@@ -213,6 +214,10 @@ class Program:
 
     def __eq__(self, prog):
         """Equality operator for programs."""
+        # a time-domain program is not equal to a plain program with the same commands
+        if type(self) is not type(prog):
+            return False
+
         # is the targets differ, the programs are not equal
         if self.target != prog.target:
             return False
@@ -232,7 +237,11 @@ class Program:
         for self_cmd, prog_cmd in zip(self.circuit, prog.circuit):
             names_eq = self_cmd.op.__class__ == prog_cmd.op.__class__
             param_eq = len(self_cmd.op.p) == len(prog_cmd.op.p) and all(
-                p1 == p2 for p1, p2 in zip(self_cmd.op.p, prog_cmd.op.p)
+                # array-valued parameters are equal if they have the same shape and entries
+                np.array_equal(p1, p2)
+                if isinstance(p1, np.ndarray) or isinstance(p2, np.ndarray)
+                else p1 == p2
+                for p1, p2 in zip(self_cmd.op.p, prog_cmd.op.p)
             )
             modes_eq = len(self_cmd.reg) == len(prog_cmd.reg) and all(
                 m1 == m2 for m1, m2 in zip(self_cmd.reg, prog_cmd.reg)
